@@ -5,6 +5,7 @@ import (
 	"go/ast"
 	"go/token"
 	"regexp"
+	"sort"
 	"strings"
 
 	"go/types"
@@ -271,4 +272,127 @@ func c08(r *core.Run) {
 		}
 	}
 	r.Floor("R4.optional", 1)
+
+	// R5 the static resource-kind shortcut mirrors the checker: every arm of interpreter.IsResourceType that recurses into a
+	// component of a static type corresponds to a checker type whose IsResourceType also depends on a component (is not a
+	// constant) — a reference, for instance, is never a resource in the checker, so a recursive arm for references makes
+	// `&R <: AnyResource` true in the generated static relation only
+	if fd, fp := w.Decl(w.FuncObj("interpreter", "", "IsResourceType")); fd == nil {
+		r.Undecided("R5.resourcekind", "interpreter.IsResourceType", "does not resolve")
+	} else {
+		arms, _ := core.TypeSwitchTable(fd, fp.TypesInfo)
+		n := 0
+		for caseType, outcome := range arms {
+			if !strings.Contains(outcome, "IsResourceType(") || strings.Contains(outcome, "SemaType") {
+				continue // delegation to the checker type itself
+			}
+			if caseType == "default" {
+				continue
+			}
+			n++
+			semaName := strings.TrimPrefix(strings.ReplaceAll(caseType, "Static", ""), "*")
+			if semaName == "ArrayType" {
+				semaName = "VariableSizedType" // interface over the two array types
+			}
+			key := "interpreter.IsResourceType: arm " + caseType + " ~ sema." + semaName + ".IsResourceType"
+			nt := w.Named("sema", semaName)
+			if nt == nil {
+				r.Undecided("R5.resourcekind", key, "checker type does not resolve")
+				continue
+			}
+			var m *types.Func
+			for _, recv := range []types.Type{nt, types.NewPointer(nt)} {
+				if sel := types.NewMethodSet(recv).Lookup(nt.Obj().Pkg(), "IsResourceType"); sel != nil {
+					m, _ = sel.Obj().(*types.Func)
+				}
+			}
+			md, _ := w.Decl(m)
+			if md == nil || md.Body == nil {
+				r.Undecided("R5.resourcekind", key, "checker method does not resolve")
+				continue
+			}
+			constant := true
+			ast.Inspect(md.Body, func(nd ast.Node) bool {
+				if ret, ok := nd.(*ast.ReturnStmt); ok && len(ret.Results) == 1 {
+					if id, ok := ret.Results[0].(*ast.Ident); !ok || (id.Name != "true" && id.Name != "false") {
+						constant = false
+					}
+				}
+				return true
+			})
+			r.Check(!constant, "R5.resourcekind", key, fd.Pos(), "both recurse into the component type",
+				"the static shortcut recurses into a component of "+caseType+" although the checker's "+semaName+".IsResourceType is a constant: the generated static subtype relation classifies such types differently from the checker")
+		}
+		if n == 0 {
+			r.Undecided("R5.resourcekind", "interpreter.IsResourceType", "no recursive arm found")
+		}
+	}
+	r.Floor("R5.resourcekind", 3)
+
+	// R6 sibling built-in types declare alike: the path types (Path, StoragePath, CapabilityPath, PublicPath, PrivatePath) are
+	// SimpleType literals with the same set of fields and the same conformances — a sibling that loses a conformance breaks
+	// transitivity (StoragePath <: Path <: {StructStringer} but not StoragePath <: {StructStringer})
+	if sp := w.Pkg("sema"); sp != nil {
+		type pdecl struct{ keys, conf string }
+		decls := map[string]pdecl{}
+		for _, f := range sp.Syntax {
+			for _, d := range f.Decls {
+				gd, ok := d.(*ast.GenDecl)
+				if !ok {
+					continue
+				}
+				for _, spec := range gd.Specs {
+					vs, ok := spec.(*ast.ValueSpec)
+					if !ok || len(vs.Names) != 1 || len(vs.Values) != 1 || !strings.HasSuffix(vs.Names[0].Name, "PathType") {
+						continue
+					}
+					var cl *ast.CompositeLit
+					switch v := vs.Values[0].(type) {
+					case *ast.UnaryExpr:
+						cl, _ = v.X.(*ast.CompositeLit)
+					case *ast.CompositeLit:
+						cl = v
+					}
+					if cl == nil {
+						continue
+					}
+					if _, tn := core.ExprTypeName(cl, sp.TypesInfo); tn != "SimpleType" {
+						continue
+					}
+					var keys []string
+					conf := ""
+					for _, e := range cl.Elts {
+						kv, ok := e.(*ast.KeyValueExpr)
+						if !ok {
+							continue
+						}
+						k, _ := kv.Key.(*ast.Ident)
+						if k == nil {
+							continue
+						}
+						keys = append(keys, k.Name)
+						if k.Name == "conformances" {
+							conf = types.ExprString(kv.Value)
+						}
+					}
+					sort.Strings(keys)
+					decls[vs.Names[0].Name] = pdecl{strings.Join(keys, ","), conf}
+				}
+			}
+		}
+		groups := map[string][]string{}
+		for n, d := range decls {
+			k := d.keys + " | conformances=" + d.conf
+			groups[k] = append(groups[k], n)
+		}
+		var desc []string
+		for k, v := range groups {
+			sort.Strings(v)
+			desc = append(desc, strings.Join(v, ",")+": "+k)
+		}
+		sort.Strings(desc)
+		r.Check(len(decls) >= 4 && len(groups) == 1, "R6.pathsiblings", "sema path types declare the same fields and conformances", 0, itoa(len(decls))+" path types agree",
+			"the sibling path types no longer declare the same fields/conformances: "+strings.Join(desc, " || "))
+	}
+	r.Floor("R6.pathsiblings", 1)
 }
